@@ -318,20 +318,27 @@ class OF:
     z: Optional[int] = None
 RECIPES = ([name_mapping(OF, omit_default=True)],
            [name_mapping(OF, omit_default=True, map={"tags": ("m", "tags"), "meta": ("m", "meta"), "n": ("m", "k", "n")})],
-           [name_mapping(OF, omit_default="tags|note|n")])
+           [name_mapping(OF, omit_default="tags|note|n")],
+           # nested nodes that end up EMPTY when every leaf inside is omitted: the emptied node {} equals the dict default of its last leaf
+           [name_mapping(OF, omit_default=True, map={"meta": ("m", "meta")})],
+           [name_mapping(OF, omit_default=True, map={"note": ("m", "note"), "meta": ("m", "meta"), "tags": ("l", "x", "tags")})],
+           [name_mapping(OF, omit_default=True, map={"z": ("m", "x", "z"), "meta": ("m", "x", "meta")})])
 ORS = [six_retorts(rc) for rc in RECIPES]
 OLD = [{k: r.get_loader(OF) for k, r in rs.items()} for rs in ORS]
 ODP = [{k: r.get_dumper(OF) for k, r in rs.items()} for rs in ORS]
-def omit_rt(x, i1, i2, i3, i4, i5, i6, i7, js):
+def omit_rt(x, i1, i2, i3, i4, i5, i6, i7, js, rcs=(0, 1, 2)):
     obj = OF(x,
              tags=[None, [], [0], [x]][pick(i1, 4)], meta=[None, {}, {"k": 0}, {"": x}][pick(i2, 4)], note=[None, "", "x", "0"][pick(i3, 4)],
              flag=[None, False, True][pick(i4, 3)], n=[None, 0, x][pick(i5, 3)], t=[None, (), (0,), (x, 0)][pick(i6, 4)], z=[None, 0, x][pick(i7, 3)])
-    for rc in range(len(RECIPES)):
+    for rc in rcs:
         for k in ORS[rc]:
             if js and (rc != 1 or k[1] is DT_MODES[1]): continue          # json under the engine is slow: nested recipe, DISABLE and ALL
-            d = ODP[rc][k](obj)
-            if js: d = json.loads(json.dumps(realize(d)))
-            back = OLD[rc][k](d)
+            try:
+                d = ODP[rc][k](obj)
+                if js: d = json.loads(json.dumps(realize(d)))
+                back = OLD[rc][k](d)
+            except Exception:
+                return False
             if back != obj: return False
             if type(back.flag) is not type(obj.flag) or type(back.n) is not type(obj.n) or type(back.z) is not type(obj.z): return False
     return True
@@ -401,6 +408,11 @@ def typeddict_rt(x, i1, i2, i3):
               family="omit_default round trip with real field types: factory defaults, falsy look-alikes (None / 0 / '' / [] / {} / () / False)",
               bounds="7 defaulted Optional fields x 3-4 pooled values each (default, None, falsy and non-falsy values, a symbolic int); slice " + sl +
                      "; 3 recipes (all fields, nested paths, omit_default predicate); 6 modes")
+    mo.ob("omit_default_rt_emptied", "x: int, i1: int, i2: int, i3: int, i7: int", "return omit_rt(x, i1, i2, i3, 1, 1, 1, i7, False, (3, 4, 5))",
+          pre=["0 <= i1 < 4 and 0 <= i2 < 4 and 0 <= i3 < 4 and 0 <= i7 < 3"], timeout=tmo,
+          family="omit_default round trip with real field types: factory defaults, falsy look-alikes (None / 0 / '' / [] / {} / () / False)",
+          bounds="nested nodes that end up empty when every leaf inside is omitted (the emptied node {} equals the dict default of a leaf): 3 recipes (one leaf, "
+                 "leaves in two nodes, two levels); tags / meta / note / z over their pools; 6 modes")
     mo.ob("omit_default_rt_json", "i1: int, i2: int, i6: int", "return omit_rt(7, i1, i2, i1, 1, i6 % 3, i6, 0, True)",
           pre=["0 <= i1 < 4 and 0 <= i2 < 4 and 0 <= i6 < 4"], timeout=tmo,
           family="omit_default round trip through json", bounds="as above, payload 7, nested-path recipe, debug_trail DISABLE and ALL, through json.dumps/loads (C code: realised)")
